@@ -410,8 +410,9 @@ class Run:
             "seed": self.seed,
             "level": level,
             "coverage": {
-                "obligations": len(goals),
+                "obligations": len([o for o in goals if o.bounded is None]) if level == "proof" else len(goals),
                 "discharged": len(proved) if level == "proof" else len(proved) + len(bounded),
+                "bounded_obligations": len([o for o in goals if o.bounded is not None]),
                 "bounded_only": len(bounded),
                 "cover_queries": len(covers),
                 "cover_ok": len([o for o in covers if o.status == "proved"]),
